@@ -2,7 +2,8 @@
 C03 — the reader is total on the format: every well-formed file, whatever choices its writer made
 (any legal prefix table, any grouping into blocks and runs, any number of chunks), is decoded by
 the operational decompressor, for every Huffman lookup between the eager `matchCode` and any
-prefix-safe lazier one (`Op.LazyOf`), to exactly the values the specification assigns to the file.
+lazier one (`Op.WeakLazyOf`: sound, fails only with `insufficient`, answers when `lookahead` bits follow;
+no prefix-safety of the lookup itself is assumed), to exactly the values the specification assigns to the file.
 Property theorems only.
 
 Both the one-shot `simple_decompress` and the chunk API (`header`, then alternating
@@ -15,9 +16,10 @@ open Parser Op
 
 /-- the hypotheses are satisfiable: the eager matcher of the specification is a `LazyOf` matcher -/
 theorem eager_lazyOf : Op.LazyOf Op.eagerMatcher := Op.eager_lazyOf
+theorem eager_weakLazyOf : Op.WeakLazyOf Op.eagerMatcher := Op.eager_lazyOf.weak
 
 /-- **`simple_decompress` is total on the format** -/
-theorem reader_total_on_format (L : Op.Matcher) (hL : Op.LazyOf L) (gb : Nat → Nat) (d : DType)
+theorem reader_total_on_format (L : Op.Matcher) (hL : Op.WeakLazyOf L) (gb : Nat → Nat) (d : DType)
     (f : AFile) (h : f.WF gb d) :
     (Op.simpleDecompress L gb d (Op.write Op.St.init (encodeFile gb d f))).1
       = .ok (fileVals d f.toD).flatten := by
@@ -26,7 +28,7 @@ theorem reader_total_on_format (L : Op.Matcher) (hL : Op.LazyOf L) (gb : Nat →
   exact Op.simple_ok L hL gb d _ _ _ hdec
 
 /-- … also when anything at all (any number of bits) follows the termination byte -/
-theorem reader_total_trailing (L : Op.Matcher) (hL : Op.LazyOf L) (gb : Nat → Nat) (d : DType)
+theorem reader_total_trailing (L : Op.Matcher) (hL : Op.WeakLazyOf L) (gb : Nat → Nat) (d : DType)
     (f : AFile) (h : f.WF gb d) (rest : Bits) :
     (Op.simpleDecompress L gb d (Op.write Op.St.init (encodeFile gb d f ++ rest))).1
       = .ok (fileVals d f.toD).flatten :=
@@ -34,7 +36,7 @@ theorem reader_total_trailing (L : Op.Matcher) (hL : Op.LazyOf L) (gb : Nat → 
 
 /-- more generally: whatever input the specification decoder accepts, the operational one decodes
 to the same values -/
-theorem reader_total_on_accepted (L : Op.Matcher) (hL : Op.LazyOf L) (gb : Nat → Nat) (d : DType)
+theorem reader_total_on_accepted (L : Op.Matcher) (hL : Op.WeakLazyOf L) (gb : Nat → Nat) (d : DType)
     (s : Bits) (f : DFile) (r : Bits) (h : decodeFile gb d s = .ok f r) :
     (Op.simpleDecompress L gb d (Op.write Op.St.init s)).1 = .ok (fileVals d f).flatten :=
   Op.simple_ok L hL gb d s f r h
@@ -121,9 +123,9 @@ theorem api_chunk_meta (gb : Nat → Nat) (d : DType) (fl : Flags)
     simp only [encChunk, List.length_append, natBits_length]; omega
   rw [this]
 
-/-- `chunk_body()` after it: the chunk's values, for any `LazyOf` matcher as soon as `lookahead`
+/-- `chunk_body()` after it: the chunk's values, for any `WeakLazyOf` matcher as soon as `lookahead`
 bits follow the chunk (in a file: the next magic byte) -/
-theorem api_chunk_body (L : Op.Matcher) (hL : Op.LazyOf L) (gb : Nat → Nat) (d : DType) (fl : Flags)
+theorem api_chunk_body (L : Op.Matcher) (hL : Op.WeakLazyOf L) (gb : Nat → Nat) (d : DType) (fl : Flags)
     (c : AChunk) (hc : c.WF gb d fl)
     (rest : Bits) (hrest : Op.lookahead ≤ rest.length) (p : Nat) (hpos : p % 8 = 0) :
     Op.chunkBody L d (Op.stBody fl (freshBody fl c.fixedMeta) (encBody c.cm.prefixes c.blocks ++ rest) p)
@@ -142,7 +144,7 @@ theorem api_chunk_body (L : Op.Matcher) (hL : Op.LazyOf L) (gb : Nat → Nat) (d
   rfl
 
 /-- both together -/
-theorem api_chunk (L : Op.Matcher) (hL : Op.LazyOf L) (gb : Nat → Nat) (d : DType) (fl : Flags)
+theorem api_chunk (L : Op.Matcher) (hL : Op.WeakLazyOf L) (gb : Nat → Nat) (d : DType) (fl : Flags)
     (c : AChunk) (hp : (prefDType d fl).Ok) (hs : d.signed.Ok) (hc : c.WF gb d fl)
     (rest : Bits) (hrest : Op.lookahead ≤ rest.length) (p : Nat) (hpos : p % 8 = 0) :
     ∃ σ', Op.chunkMetadata gb d (Op.stIdle fl (encChunk gb d fl c ++ rest) p) = (.ok (some c.fixedMeta), σ') ∧
@@ -172,7 +174,7 @@ def apiChunks (L : Op.Matcher) (gb : Nat → Nat) (d : DType) :
         | (.err e, σ3) => (.err e, σ3)
         | (.ok rest, σ3) => (.ok ((m, xs) :: rest), σ3)
 
-theorem api_run (L : Op.Matcher) (hL : Op.LazyOf L) (gb : Nat → Nat) (d : DType) (fl : Flags)
+theorem api_run (L : Op.Matcher) (hL : Op.WeakLazyOf L) (gb : Nat → Nat) (d : DType) (fl : Flags)
     (hp : (prefDType d fl).Ok) (hs : d.signed.Ok) (cs : List AChunk) (hcs : ∀ c ∈ cs, c.WF gb d fl)
     (rest : Bits) (p : Nat) (hpos : p % 8 = 0) :
     apiChunks L gb d (cs.length + 1)
@@ -198,7 +200,7 @@ theorem api_run (L : Op.Matcher) (hL : Op.LazyOf L) (gb : Nat → Nat) (d : DTyp
 /-- **the chunk API is total on the format**: `header()` returns the flags; then alternating
 `chunk_metadata()` / `chunk_body()` return, chunk by chunk, the metadata as written and the
 chunk's values; then `chunk_metadata()` returns `None`; all input is consumed -/
-theorem chunk_api_total (L : Op.Matcher) (hL : Op.LazyOf L) (gb : Nat → Nat) (d : DType)
+theorem chunk_api_total (L : Op.Matcher) (hL : Op.WeakLazyOf L) (gb : Nat → Nat) (d : DType)
     (f : AFile) (h : f.WF gb d) :
     ∃ σ1, Op.header d (Op.write Op.St.init (encodeFile gb d f)) = (.ok f.flags, σ1) ∧
       ∃ σ2, apiChunks L gb d (f.chunks.length + 1) σ1
